@@ -1,5 +1,6 @@
 import RreModel.Proto
 import RreModel.C05.Spec
+import RreModel.C05.Model2
 /-
 Driver for C05.
   case := `<E> <hex utf-8 input> <cls>`      cls := `-` | `cp:f,cp:f,…`  (hex code point : 1·white+2·alpha+4·numeric)
@@ -70,13 +71,182 @@ def showAgg (a : Agg) : String :=
     | none => a.func
   s!"{f} {hx a.pattern} {match a.filter with | some x => hx x | none => "none"}"
 
+/-! ### entries added by the follow-up (Model2): text layer, accumulate, module context, attributes, stream grammar -/
+
+def showPR {α} (f : α → String) : PR α → String
+  | .ok a r => s!"ok {blen r} {f a}"
+  | .err => "err"
+  | .panic => "panic"
+  | .oof => "oof"
+
+def showWin (w : Nat × WType) : String := toString w.1 ++ (match w.2 with | .sliding => "s" | .tumbling => "t")
+def showWinOpt : Option (Nat × WType) → String
+  | some w => showWin w
+  | none => "-"
+def showSPat (p : SPat) : String :=
+  s!"{hx p.var} {match p.etype with | some t => hx t | none => "-"} {hx p.stream} {showWinOpt p.window}"
+def showJoinCond : JoinCond → String
+  | .eq l r => s!"eq {hx l} {hx r}"
+  | .expr e => s!"ex {hx e}"
+  | .temporal op l r => s!"{op} {hx l} {hx r}"
+
+/-- `some mid` when `t = pre ++ mid ++ post` -/
+def between (pre post t : Str) : Option Str :=
+  if pre.isPrefixOf t then
+    let r := t.drop pre.length
+    if post.length ≤ r.length ∧ r.drop (r.length - post.length) == post then some (r.take (r.length - post.length))
+    else none
+  else none
+
+def showRS (r : R String) : String :=
+  match r with
+  | .ok s => s
+  | .err => "err"
+  | .panic => "panic"
+  | .oof => "oof"
+
+/-- PU: `parse_rule(s)` on a text that cannot match the rule regex (no `rule` left after cleaning) -/
+def predictPU (k : Cls) (s : Str) : String :=
+  showRS <| bindR (notARuleText k prepare s) fun cu =>
+    if containsStr cu.1 "rule".toList then .ok "-"
+    else .ok ("err " ++ hx ("Invalid GRL rule format. Input: ".toList ++ cu.2))
+
+/-- PN: `rule "<s>" { when X == 1 then Y = 1; }` ↦ the rule name -/
+def predictPN (k : Cls) (s : Str) : String :=
+  let text := "rule \"".toList ++ s ++ "\" { when X == 1 then Y = 1; }".toList
+  showRS <| bindR (prepare text) fun ml =>
+    match between "rule \"".toList "\" { when X == 1 then Y = 1; }".toList (cleanText k ml.1) with
+    | some mid =>
+      if mid.contains '"' || mid.contains '{' || mid.contains '}' || containsStr mid "rule".toList then .ok "-"
+      else if mid.isEmpty then .ok "err"
+      else bindR (unmask ml.2 mid) fun nm => .ok ("ok " ++ hx nm)
+    | none => .ok "-"
+
+/-- AC: `rule "r" { when accumulate(<s>) then Y = 1; }` ↦ the fields of `ConditionGroup::Accumulate` -/
+def predictAC (k : Cls) (s : Str) : String :=
+  let text := "rule \"r\" { when accumulate(".toList ++ s ++ ") then Y = 1; }".toList
+  showRS <| bindR (prepare text) fun ml =>
+    if !ml.1.contains '}' then .ok "ok other0"          -- a comment swallowed the end of the rule: no rule found
+    else
+    match between ("rule \"".toList ++ placeholder 0 ++ "\" { when ".toList) " then Y = 1; }".toList (cleanText k ml.1) with
+    | some mid =>
+      let clause := trim k mid
+      if mid.contains '{' || mid.contains '}' || containsStr mid "then".toList || containsStr mid "rule".toList then .ok "-"
+      else if 2 ≤ (splitLogical k '|' clause).length || 2 ≤ (splitLogical k '&' clause).length then .ok "-"
+      else if !"accumulate(".toList.isPrefixOf clause then .ok "-"
+      else match parseAccCondition k ml.2 clause with
+        | .ok a => .ok s!"ok {hx a.source} {hx a.field} {hxList a.conds} {hx a.func} {hx a.arg}"
+        | .err => .ok "err"
+        | .panic => .panic
+        | .oof => .oof
+    | none => .ok "-"
+
+/-- MC: `<s>rule "r" { when X == 1 then Y = 1; }` through `parse_with_modules` ↦ the module of rule `r` -/
+def predictMC (k : Cls) (s : Str) : String :=
+  let text := s ++ "rule \"r\" { when X == 1 then Y = 1; }".toList
+  if containsStr s "rule".toList || containsStr s "defmodule".toList || s.contains '"' || s.contains '\''
+      || s.contains '/' || s.contains '{' || s.contains '}' then "-"
+  -- a multi-byte char glued to `rule`: the regex engine reports an offset inside it (F-C05i, guarded: Err)
+  else if (match s.getLast? with | some c => decide (c.utf8Size > 1) | none => false) then "fine"
+  else match extractModule k text ['r'] with
+    | .ok m => "ok 72=" ++ hx m
+    | .err => "err"
+    | .panic => "panic"
+    | .oof => "oof"
+
+/-- scanner standing for `quoted_regex.replace_all(s, "")` with the regex `"[^"]*"` -/
+def removeQuotedGo : Str → Str → Option Str → Str
+  | [], out, none => out.reverse
+  | [], out, some held => (held ++ out).reverse          -- an unclosed quote is kept
+  | c :: cs, out, none => if c == '"' then removeQuotedGo cs out (some [c]) else removeQuotedGo cs (c :: out) none
+  | c :: cs, out, some held => if c == '"' then removeQuotedGo cs out none else removeQuotedGo cs out (some (c :: held))
+def removeQuotedRef (s : Str) : Str := removeQuotedGo s [] none
+
+def wordChar (c : Char) : Bool := asciiCls.alpha c || asciiCls.numeric c || c == '_'
+
+/-- scanner standing for `\b<word>\b` `.is_match` -/
+def hasWordGo (w : Str) : Str → Option Char → Bool
+  | [], _ => false
+  | c :: cs, prev =>
+    (w.isPrefixOf (c :: cs) && (match prev with | some p => !wordChar p | none => true)
+      && (match (c :: cs).drop w.length with | d :: _ => !wordChar d | [] => true))
+    || hasWordGo w cs (some c)
+def hasWord (w : String) (s : Str) : Bool := hasWordGo w.toList s none
+
+/-- AT: `rule "r" <s> { when X == 1 then Y = 1; }` ↦ `no_loop`, `lock_on_active` -/
+def predictAT (k : Cls) (s : Str) : String :=
+  let text := "rule \"r\" ".toList ++ s ++ " { when X == 1 then Y = 1; }".toList
+  showRS <| bindR (prepare text) fun ml =>
+    match between ("rule \"".toList ++ placeholder 0 ++ "\"".toList) "{ when X == 1 then Y = 1; }".toList (cleanText k ml.1) with
+    | some attrs =>
+      if attrs.contains '{' || attrs.contains '}' || containsStr attrs "salience".toList || containsStr attrs "date-".toList
+          || attrs.any (fun c => c.toNat ≥ 128) then .ok "-"
+      else bindR (attrsSection removeQuotedRef attrs) fun sec =>
+        .ok s!"ok {if hasWord "no-loop" sec then 1 else 0}{if hasWord "lock-on-active" sec then 1 else 0}"
+    | none => .ok "-"
+
+def unmaskStr (lits : List Str) (s : Str) : Str :=
+  match unmask lits s with
+  | .ok t => t
+  | _ => s
+
+partial def unmaskVal (lits : List Str) : Val → Val
+  | .str s => .str (unmaskStr lits s)
+  | .expr s => .expr (unmaskStr lits s)
+  | .arr vs => .arr (vs.map (unmaskVal lits))
+  | v => v
+
+/-- RV / RA: `parse_value` sees the *masked* payload (classification is done on masked text) and unmasks the
+strings it returns -/
+def predictValue (k : Cls) (pre post : String) (s : Str) : R Val :=
+  match prepare (pre.toList ++ s ++ post.toList) with
+  | .ok (m, lits) =>
+    let pre' := "rule \"".toList ++ placeholder 0 ++ (pre.toList.drop 7)
+    match between pre' post.toList (cleanText k m) with
+    | some mid =>
+      (match parseValue k mid with
+       | .ok v => .ok (unmaskVal lits v)
+       | r => r)
+    | none => parseValue k s
+  | _ => parseValue k s
+
+/-- the facts `evaluate_expression` is driven with (`v_facts()` of the harness) -/
+def vFacts (s : Str) : Option AV :=
+  match String.ofList s with
+  | "Z" => some (.numv (some true))
+  | "I" => some (.numv (some false))
+  | "M" => some (.numv (some false))
+  | "MX" => some (.numv (some false))
+  | "N1" => some (.numv (some false))
+  | "F" => some (.numv (some false))
+  | "FZ" => some (.numv (some true))
+  | "S" => some (.str ['x'])
+  | "SN" => some (.str "12".toList)
+  | "SZ" => some (.str ['0'])
+  | "B" => some .other
+  | "Order.quantity" => some (.numv (some false))
+  | "Order.none" => some (.numv (some true))
+  | _ => none
+
 /-- the model's prediction for one entry -/
 def predict (k : Cls) (e : String) (s : Str) : String :=
   match e with
+  | "S" => showPR showSPat (parseStreamPattern nomRef k s)
+  | "SJ" => showPR (fun (p : SPat × SPat) => showSPat p.1 ++ " " ++ showSPat p.2) (parseStreamJoin nomRef k s)
+  | "SC" => showPR showJoinCond (parseJoinCondition nomRef k s)
+  | "SD" => showPR toString (parseDuration nomRef s)
+  | "SW" => showPR showWin (parseWindowSpec nomRef s)
+  | "SS" => showPR (fun (p : Str × Option (Nat × WType)) => hx p.1 ++ " " ++ showWinOpt p.2) (parseStreamSource nomRef s)
+  | "ST" => showPR (fun (t : WType) => match t with | .sliding => "s" | .tumbling => "t") (parseWindowType nomRef s)
+  | "PU" => predictPU k s
+  | "PN" => predictPN k s
+  | "AC" => predictAC k s
+  | "MC" => predictMC k s
+  | "AT" => predictAT k s
   | "X" => showR showExpr (parseExpr k s)
   | "Q" => showR (fun (p : Bool × Expr) => s!"{if p.1 then 1 else 0} {showExpr p.2}") (parseQuery k s)
-  | "V" => (match evalExpr k s with
-    | .ok => "ok" | .err => "err" | .fine => "fine" | .panic => "panic" | .oof => "oof")
+  | "V" => (match evalValue k vFacts s with
+    | .ok _ => "ok" | .err => "err" | .fine => "fine" | .panic => "panic" | .oof => "oof")
   | "D" => showR (fun (o : Option (List Str)) => match o with | some bs => hxList bs | none => "none") (disjParse k s)
   | "DC" => showR (fun (b : Bool) => if b then "1" else "0") (disjContainsOr k s)
   | "G" => showR hx (grlQueryParse k s)
@@ -84,8 +254,9 @@ def predict (k : Cls) (e : String) (s : Str) : String :=
   | "A" => showR showAgg (parseAggregate k s)
   | "NH" => showR (fun (b : Bool) => if b then "1" else "0") (hasNested s)
   | "NP" => showR hxList (nestedParse k s)
-  | "RV" => if (trim k s).isEmpty then "err" else showR showVal (parseValue k s)
-  | "RA" => showR showVal (parseValue k s)
+  | "RV" => if (trim k s).isEmpty then "err"
+            else showR showVal (predictValue k "rule \"r\" { when X == " " then Y = 1; }" s)
+  | "RA" => showR showVal (predictValue k "rule \"r\" { when X == 1 then Y = " "; }" s)
   | _ => "-"
 
 def parseCase (line : String) : Option (String × Str × Cls) :=
@@ -104,7 +275,7 @@ def modelLine (line : String) : String :=
 def parseObs (o : String) : Option Obs :=
   if o = "ok" then some (.ok "")
   else if o.startsWith "ok " then some (.ok (o.drop 3).toString)
-  else if o = "err" then some .err
+  else if o = "err" || o.startsWith "err " then some .err
   else if o.startsWith "panic" then some (.panic (o.drop 6).toString)
   else if o.startsWith "crash" then some (.crash (o.drop 6).toString)
   else if o = "hang" then some .hang
